@@ -67,7 +67,8 @@ P["C06"] = dict(
     claimed=True,
     technique="static analysis: exact checks of the ellipsoid table (f64 grammar, uniqueness, golden a and 1/f), "
               "series reversion identities, meridian-arc coefficients = binom(1/2,k)^2",
-    decides=["R-RF-ZERO-CONVENTION: both ellipsoid constructors divide by a table rf only where rf != 0 is known",
+    decides=["R-POLAR-HEIGHT: on the polar axis the height is |Z| - b",
+             "R-RF-ZERO-CONVENTION: both ellipsoid constructors divide by a table rf only where rf != 0 is known",
              "R-TABLE-LOOKUP-EXACT: Ellipsoid::named and TriaxialEllipsoid::named look names up by equality",
              "R-CURVATURE-MEANS: combined radii of curvature satisfy their defining identities in the two principal radii",
              "T-ELLPS: every row parses, is unique, equals the published a and 1/f; gamut defaults name rows",
@@ -137,7 +138,8 @@ P["C02"] = dict(
 P["C07"] = dict(
     claimed=True,
     technique="static analysis: loop-carried-state and element-preservation dataflow on the Helmert/Molodensky loops",
-    decides=["R-ROT-SMALL-ANGLE: with exact = false the matrix of rotation_matrix satisfies M(-r) = M(r) transposed as a polynomial identity (both conventions)",
+    decides=["T-MOLODENSKY: with da = df = 0 the full and the abridged Molodensky corrections are the exact linearisation of the cartesian shift (six rational-function identities in dx, dy, dz, N, M, h and the sines / cosines)",
+             "R-ROT-SMALL-ANGLE: with exact = false the matrix of rotation_matrix satisfies M(-r) = M(r) transposed as a polynomial identity (both conventions)",
              "R-MOLO-BOTH-ELLPS: molodensky stores the da / df derived from the two ellipsoids only where both ellps_0 and ellps_1 are known to have been given",
              "R-FLAG-COVERS: the decisions to set helmert's `dynamic` and `rotated` flags mention every stored quantity the apply function uses under that flag (DT, DR, DS; R, DR)",
              "R-LOOP-CARRIED on helmert_common: parameters are evaluated at each tuple's own epoch",
@@ -163,7 +165,8 @@ P["C07"] = dict(
 P["C08"] = dict(
     claimed=True,
     technique="static analysis: per-iteration typestate (written x counted) on the grid operators' loops",
-    decides=["R-GRID-INVARIANT reads guards merged into disjunctions and stored booleans (guards.py)",
+    decides=["R-NULL-ENDS-LIST: the branch that records the null grid leaves the grid-list loop (grids after `null` are ignored)",
+             "R-GRID-INVARIANT reads guards merged into disjunctions and stored booleans (guards.py)",
              "R-NULL-AFTER-STRIP: gridshift, deformation and deflection compare the grid name with `null` after removing the `@` prefix",
              "R-GRIDS-INDEX-GUARD: the first grid of the list is consulted only when the list is non-empty",
              "R-COUNT-OR-NAN on gridshift/deformation/deflection: a point that gets no grid value is overwritten "
@@ -424,7 +427,8 @@ P["C14"] = dict(
     claimed=True,
     technique="static analysis: wiring rules between sibling implementations (contexts, adapt/axisswap/unitconvert, "
               "operators vs their parameter declarations) and exact series identities between tables of different origin",
-    decides=["R-RF-ZERO-CONVENTION: Ellipsoid::named and TriaxialEllipsoid::named treat the table's spheres alike",
+    decides=["R-POLAR-HEIGHT: cart's inverse and GeoCart::geographic both take the height on the polar axis as |Z| minus the semiminor axis",
+             "R-RF-ZERO-CONVENTION: Ellipsoid::named and TriaxialEllipsoid::named treat the table's spheres alike",
              "R-PROJ-PASSTHROUGH: Plain (which filters every definition through parse_proj) and Minimal see the same text for every Rust Geodesy definition",
              "R-TABLE-LOOKUP-EXACT: the biaxial and triaxial constructors use the same (equality) predicate over the ellipsoid table",
              "R-KEY-DECLARED (constructors, indexed accessors): a constructor does not read ellps(k), lat(k) ... for a key its gamut does not declare (it would always get the built-in default)",
